@@ -21,7 +21,8 @@ RULE = (
     "adjacent runs) x thorough. The real SessionsScanner.run() is executed in-process over an in-memory transport under virtual time. "
     "Oracle: scanner.result equals the set of sessions s for which a walk 1 -> .. -> s of 1..depth edges exists in the graph without "
     "skipped nodes (BFS); every recorded (destination, steps) is a walk of the graph from the default session ending with an edge into "
-    "destination; no DiagnosticSessionControl request for a skipped session reaches the ECU; the scan terminates within a request budget. "
+    "destination; no DiagnosticSessionControl request for a skipped session reaches the ECU; the scan terminates within a request budget. A third of the cases give the scanner a database that already holds the transitions of an earlier, deeper scan; "
+    "some skip lists contain the default session (never probed, still the start of every walk). "
     "Non-trivial: the graph has a cycle or a session at distance >= 2 and the expected set differs between depth and depth-1. Distinct by case."
 )
 ASSUMPTIONS = [
